@@ -61,6 +61,7 @@ CATALOG['zip.ref_owned'] = lambda f, s, n: scenarios.zip_mixed(f, s, n, which='r
 CATALOG['iter.fold'] = lambda f, s, n: scenarios.iter_fold(f, s, n, which='fold', name='iter.fold')
 CATALOG['iter.rfold'] = lambda f, s, n: scenarios.iter_fold(f, s, n, which='rfold', name='iter.rfold')
 
+CATALOG['try_boxed_from_iter'] = lambda f, s, n: scenarios.op_try_from_iter(f, s, n, name='try_boxed_from_iter', boxed=True)
 CATALOG['mutprov'] = lambda f, s, n: scenarios.mut_views(f, s, n, name='mutprov')
 CATALOG['const_transmute'] = lambda f, s, n: scenarios.transmute_guard(f, s, n, name='const_transmute')
 CATALOG['const_transmute.ctfe'] = lambda f, s, n: scenarios.transmute_guard(f, s, n, ctfe=True, name='const_transmute.ctfe')
